@@ -1982,8 +1982,12 @@ func (ls *LState) Resume(th *LState, fn *LFunction, args ...LValue) (ResumeState
 		th.initCallFrame(cf)
 		th.Panic = panicWithoutTraceback
 	} else {
+		base := th.reg.Top()
 		for _, arg := range args {
 			th.Push(arg)
+		}
+		if th.yieldNRet != MultRet {
+			th.reg.SetTop(base + th.yieldNRet)
 		}
 	}
 	top := ls.GetTop()
